@@ -285,7 +285,8 @@ func c15(c *Ctx) {
 		return
 	}
 	r.Explanation = "Partial (a sufficient condition): (W1) everything delivered has one origin, send(), which takes the bytes from sorcix/irc's Message.Bytes() (truncating at its maxLength constant, asserted <= 510); the output store and the API hand those bytes on verbatim and nobody else builds an IRCToClient message; (W2) every client-controlled string that becomes the Data of a proposed IRCFromClient/DeleteSession entry passes a recognised sanitiser whose removed-byte set contains LF, CR and NUL; (W3) no string constant of the IRC server contains one of these bytes; (W4) every message handed to a send helper has a command that is a non-empty constant or the parsed command of the input. Third-party formatting of error texts echoed into replies is not decided."
-	r.Rules = []string{"C15.W1 single bounded producer", "C15.W2 tainted sources are sanitised", "C15.W3 no self-inflicted bytes", "C15.W4 every line has a command"}
+	defer c.c15W5(f)
+	r.Rules = []string{"C15.W1 single bounded producer", "C15.W2 tainted sources are sanitised", "C15.W3 no self-inflicted bytes", "C15.W4 every line has a command", "C15.W5 no line under an unregistered identity"}
 
 	// ---------- W1
 	if p := c.P.All[pathIRC]; p != nil {
@@ -322,14 +323,29 @@ func c15(c *Ctx) {
 		for _, cl := range compositeLitsOf(info, f.send.Body(), pathRobust, "Message") {
 			if d := litField(cl, "Data"); d != nil {
 				// string(msg.Bytes()) or msg.String() (which is string(m.Bytes()) in the library)
-				for _, bc := range astx.Calls(d, false) {
-					if fn := astx.Callee(info, bc); fn != nil && (astx.Method(fn, pathIRC, "Message", "Bytes") || astx.Method(fn, pathIRC, "Message", "String")) {
+				// … and nothing but type conversions around it: any further function applied to the bounded bytes
+				// (re-encoding, escaping, padding) can lengthen the line again
+				e := ast.Unparen(d)
+				if dd := uniqueDef(info, f.send.Node(), e); dd != nil {
+					e = ast.Unparen(dd)
+				}
+				for {
+					call, isCall := e.(*ast.CallExpr)
+					if !isCall {
+						break
+					}
+					if tv, okT := info.Types[call.Fun]; okT && tv.IsType() && len(call.Args) == 1 {
+						e = ast.Unparen(call.Args[0])
+						continue
+					}
+					if fn := astx.Callee(info, call); fn != nil && (astx.Method(fn, pathIRC, "Message", "Bytes") || astx.Method(fn, pathIRC, "Message", "String")) {
 						ok = true
 					}
+					break
 				}
 			}
 		}
-		r.Check(ok, "C15.W1", f.send.Name(), "output bytes come from the bounded serializer", c.P.Pos(f.send.Node().Pos()), "Data: string(msg.Bytes())", "send() does not produce the output bytes with irc.Message.Bytes(): the 510 byte bound is not enforced")
+		r.Check(ok, "C15.W1", f.send.Name(), "output bytes come from the bounded serializer", c.P.Pos(f.send.Node().Pos()), "Data: string(msg.Bytes())", "send() does not take the output bytes directly (modulo type conversions) from irc.Message.Bytes(): either the 510 byte bound is not enforced or a function applied afterwards (e.g. a re-encoding that replaces bytes by longer sequences) can exceed it again")
 	}
 	dataField := c.P.Field("robust", "Message", "Data")
 	osData := c.P.Field("outputstream", "Message", "Data")
@@ -479,4 +495,101 @@ func c15(c *Ctx) {
 		}
 	}
 	r.Check(nCmd > 150, "C15.W4", "ircserver", "messages with a well-formed command", "-", itoa(nCmd)+" send sites checked", "fewer send sites than expected")
+}
+
+// c15W5: the commands ProcessMessage lets through before registration (NICK, USER, PASS, QUIT, …) run for sessions whose
+// cached prefix is still empty. In their handlers a line carrying the acting session's own prefix is sent to *others*
+// only under s.loggedIn: otherwise the relayed line starts with ":" and an empty source name.
+func (c *Ctx) c15W5(f *ircFacts) {
+	r := c.R
+	pm := f.PM
+	if pm == nil {
+		return
+	}
+	info := pm.Info()
+	// the pre-registration gate: a condition mentioning loggedIn and comparisons command != <const>
+	pre := map[string]bool{}
+	ast.Inspect(pm.Body(), func(n ast.Node) bool {
+		ifs, ok := n.(*ast.IfStmt)
+		if !ok {
+			return true
+		}
+		mentionsLoggedIn := false
+		ast.Inspect(ifs.Cond, func(m ast.Node) bool {
+			if se, ok := m.(*ast.SelectorExpr); ok && se.Sel.Name == "loggedIn" {
+				mentionsLoggedIn = true
+			}
+			return true
+		})
+		if !mentionsLoggedIn {
+			return true
+		}
+		ast.Inspect(ifs.Cond, func(m ast.Node) bool {
+			if be, ok := m.(*ast.BinaryExpr); ok && be.Op == token.NEQ {
+				if s, ok := astx.ConstString(info, be.Y); ok && s != "" {
+					pre[s] = true
+				}
+			}
+			return true
+		})
+		return true
+	})
+	if len(pre) < 3 {
+		r.Break("C15.W5: the pre-registration gate of ProcessMessage was not recognised (%d commands)", len(pre))
+		return
+	}
+	n := 0
+	for _, e := range f.Registry {
+		if e.Handler == nil || strings.HasPrefix(e.Key, "server_") || !pre[e.Key] {
+			continue
+		}
+		fi := e.Handler
+		hinfo := fi.Info()
+		sParam := f.sessionParam(fi)
+		if sParam == nil || fi.Body() == nil {
+			continue
+		}
+		g := c.Graph(fi)
+		isS := func(x ast.Expr) bool {
+			id, ok := ast.Unparen(x).(*ast.Ident)
+			return ok && astx.Obj(hinfo, id) == sParam
+		}
+		for _, call := range astx.Calls(fi.Body(), true) {
+			fn := astx.Callee(hinfo, call)
+			if fn == nil || !f.sendHelpers[fn] {
+				continue
+			}
+			helper := fname(fn)
+			if helper == "sendUser" && len(call.Args) > 0 && isS(call.Args[0]) {
+				continue // a reply to the acting session itself
+			}
+			lit, _ := c.resolveMsgLit(fi, f, call.Args[len(call.Args)-1])
+			if lit == nil {
+				continue
+			}
+			pv := litField(lit, "Prefix")
+			u, ok := ast.Unparen(pv).(*ast.UnaryExpr)
+			if pv == nil || !ok || u.Op != token.AND {
+				continue
+			}
+			se, ok := ast.Unparen(u.X).(*ast.SelectorExpr)
+			if !ok || se.Sel.Name != "ircPrefix" || !isS(se.X) {
+				continue
+			}
+			n++
+			v := g.VertexOf(call)
+			okReg := false
+			for _, fct := range append(g.FactsAt(v), g.CondsAt(v)...) {
+				if fct.Tag != nil {
+					continue
+				}
+				if s2, ok := ast.Unparen(fct.Expr).(*ast.SelectorExpr); ok && fct.Val && s2.Sel.Name == "loggedIn" && isS(s2.X) {
+					okReg = true
+				}
+			}
+			r.Check(okReg, "C15.W5", fi.Name(), helper+" of a line with the acting session's prefix", c.P.Pos(call.Pos()), "dominated by s.loggedIn",
+				"a command that is accepted before registration relays a line carrying the acting session's own prefix without testing s.loggedIn: for a session that has not sent NICK/USER the line starts with an empty source (\":!user@host QUIT …\" or \": QUIT …\"), which is not a well-formed IRC line")
+		}
+	}
+	r.Check(n >= 1, "C15.W5", "ircserver", "relays in pre-registration handlers found", "-", itoa(n), "no relay with the acting prefix in a pre-registration handler (vacuity guard)")
 }
